@@ -23,6 +23,35 @@ class RunoutMonitor:
     def _v(self, ctx, what, detail, path=None):
         ctx.violation(what, detail, path=path, sig=(self.prop, what))
 
+    # the preferences expressed so far (who, what, in which order) are part of the explored state: two histories that leave
+    # the engine's fields equal but differ in what was said must not be merged, the verdict depends on what was said
+    def init(self, st, ctx):
+        return self._fold(st, ())
+
+    def key(self, ms):
+        return ms
+
+    @staticmethod
+    def _fold(st, ms):
+        sel = [(o.player_index, o.runout_count) for o in st.operations if type(o).__name__ == 'RunoutCountSelection']
+        if ms and ms[0] == 'closed':
+            return ms if len(sel) == ms[2] else ('closed', ms[1], len(sel), 'more')
+        seq = tuple(sel)
+        chosen = {i for i, _ in seq}
+        if seq and all(i in chosen for i in range(st.player_count) if st.statuses[i]):
+            # everybody has spoken: from here on only the outcome of the consensus rule matters, not who said what when
+            said = {c for _, c in seq if c is not None}
+            return ('closed', None if not said else said.pop() if len(said) == 1 else 1, len(seq))
+        return seq
+
+    def on_edge(self, pre, ms, ev, post, rec, ctx):
+        new = self._fold(post, ms)
+        if new and new[0] == 'closed' and not (ms and ms[0] == 'closed'):
+            said = [o.runout_count for o in post.operations if type(o).__name__ == 'RunoutCountSelection' and o.runout_count is not None]
+            if len(said) >= 3 and len(set(said)) > 1:
+                ctx.counters['selections_closed_with_3+_preferences_in_disagreement'] += 1
+        return new
+
     @staticmethod
     def facts(st):
         """From the log: live set, preferences expressed, board cards dealt before the first selection/all-in showdown."""
@@ -107,6 +136,8 @@ class RunoutMonitor:
         if sum(st.statuses) < 2:
             return
         ctx.counters['showdown_terminals_checked'] += 1
+        if ms and ms[0] == 'closed' and len(ms) == 3 and ms[1] != want_rc:
+            raise RuntimeError(f'harness: the tracked consensus {ms} differs from the log {prefs}')
         if prefs:
             ctx.counters['terminals_with_selection'] += 1
             if st.runout_count != want_rc:
@@ -200,7 +231,7 @@ def jobs(tier, seed):
             for stacks in [(4, 6, 5), (3, 3, 7)] + ([(5, 5, 5), (6, 4, 8)] if th else []):
                 out.append(_j(f'holdem-like-3p-{mode}-{boards}b', C.custom(stacks, C.HOLDEM_LIKE, deck='STANDARD', hand_types=('HighCardAny',),
                                                                            antes=0, blinds=(1, 2), mode=mode, boards=boards, autos=SEMI),
-                              opts=o, dev_bound=5 if not th else None))
+                              opts=o, dev_bound=4 if not th else 6))
             if th:
                 out.append(_j(f'NT-3p-{mode}-{boards}b', C.nt((4, 6, 5), mode=mode, boards=boards, autos=SEMI), opts=o, dev_bound=6))
             out.append(_j(f'PO-2p-{mode}-{boards}b', C.nt((4, 5), mode=mode, boards=boards, autos=SEMI, game='PotLimitOmahaHoldem'),
@@ -245,7 +276,7 @@ def run_job(job):
 
 def sanity(agg, counters, fam, tier):
     return [f'{k} == 0' for k in ('offer_states_nonempty', 'terminals_with_multiple_runouts', 'odd_pot_over_boards',
-                                  'showdown_terminals_checked') if not counters.get(k)]
+                                  'showdown_terminals_checked', 'selections_closed_with_3+_preferences_in_disagreement') if not counters.get(k)]
 
 
 def bounds(tier):
